@@ -3,7 +3,7 @@
    translated from /repo/mashumaro/dialect.py on this run, its key tuple is K13. *)
 From Coq Require Import List String ZArith Bool.
 From Verif Require Import PyK DialectMerge.
-From VerifGen Require Import K2 K13.
+From VerifGen Require Import K2 K13 K13C.
 From Verif Require Import C15Model C15Proofs C15Format.
 Import ListNotations.
 Open Scope string_scope.
@@ -24,6 +24,20 @@ Theorem C15_format_agree_partial : forall (D: Type) (doc: val -> res D) E fd ns 
   fmt_encode doc EMixin E fd (Some ns) t v = fmt_encode doc ECodec E fd (Some ns) t v.
 Proof. intros D doc. exact (format_agree_dialect doc). Qed.
 Print Assumptions C15_format_agree_partial.
+
+(* the same, instantiated with the built-in dialects exactly as the kernel K13C reads them from mashumaro/mixins/*.py
+   (OrjsonDialect, MessagePackDialect, TOMLDialect with omit_none = True), user dialect given by the options it sets *)
+Theorem C15_format_agree_builtin_partial : forall (D: Type) (doc: val -> res D) name fd xs E t v,
+  In (name, fd) builtin_dialects -> ns_wf (complete_ns xs) = true ->
+  no_lookalike_union E t = true -> dialect_compat_o E (opts_of (complete_ns xs)) = true -> names_ok E = true ->
+  exact E v t = true ->
+  fmt_encode doc EMixin E fd (Some (complete_ns xs)) t v = fmt_encode doc ECodec E fd (Some (complete_ns xs)) t v.
+Proof. intros D doc. exact (format_agree_builtin doc). Qed.
+Print Assumptions C15_format_agree_builtin_partial.
+
+Example C15_builtin_nonvacuous :
+  exists fd, In ("TOMLDialect", fd) builtin_dialects /\ opts_of fd = mkO None (Some true) None.
+Proof. exact builtin_toml_omit_none. Qed.
 
 (* without a caller dialect: mixin method == codec object == one-shot function *)
 Theorem C15_format_agree_plain_partial : forall (D: Type) (doc: val -> res D) E fd t v,
